@@ -5,6 +5,7 @@ import AiutiVerif.Gather.Drive
 import AiutiVerif.Batcher.Drive
 import AiutiVerif.Buffer.Drive
 import AiutiVerif.FileLock.Drive
+import AiutiVerif.FileLock.SmallDrive
 /-!
 Model driver: reads one case per line on stdin (`<component> key=value …`), prints the
 model's answer on one line.  Imports `Model`/`Drive` files only (never a proof file).
@@ -22,6 +23,7 @@ def answer (line : String) : String :=
     else if comp == "bat" then Batcher.drive fs
     else if comp == "buf" then Buffer.drive fs
     else if comp == "flock" then FileLock.drive fs
+    else if comp == "flocksm" then FileLock.Small.drive fs
     else if comp == "ping" then "pong"
     else "bad-component"
   | [] => "bad-component"
